@@ -8,9 +8,13 @@ props = [json.loads(l) for l in open(os.path.join(V, "properties.jsonl"))]
 ids = [p["id"] for p in props]
 checks = []
 claimed = set()
+# only checks the integrator has reviewed and run are registered (manifest.d/approved.json)
+approved = set(json.load(open(os.path.join(V, "manifest.d", "approved.json"))))
 for f in sorted(glob.glob(os.path.join(V, "manifest.d", "C*.json"))):
     fr = json.load(open(f))
     pid = fr["property_id"]
+    if pid not in approved:
+        continue
     claimed.add(pid)
     c = {
         "property_id": pid,
